@@ -121,6 +121,49 @@ theorem C25_confirms_intersect (arbs : List Arb) (c1 c2 : Conf)
   intro k hk
   exact (m1 k (List.mem_filter.1 hk).1).1
 
+/-! ## the proposal dispatcher's vote collection -/
+
+/-- The accept votes `ProposalDispatcher.ProcessVote` collects are pairwise different
+    (proposal, signer) pairs, each from a vote with a valid signature by a normal current arbiter. -/
+theorem C25_dispatcher_collects_valid (arbs : List Arb) (votes : List Vote) :
+    (dispFinal arbs [] votes).Nodup ∧
+    ∀ k ∈ dispFinal arbs [] votes, isNormalArb arbs k.1 = true ∧
+      ∃ v ∈ votes, v.signer = k.1 ∧ v.hashOk = k.2 ∧ v.sigOk = true ∧ v.accept = true := by
+  apply dispFinal_inv arbs
+    (fun k => isNormalArb arbs k.1 = true ∧
+      ∃ v ∈ votes, v.signer = k.1 ∧ v.hashOk = k.2 ∧ v.sigOk = true ∧ v.accept = true) votes []
+  · exact List.nodup_nil
+  · intro k hk; cases hk
+  · intro v hv h1 h2 h3
+    exact ⟨h2, v, hv, rfl, rfl, h1, h3⟩
+
+/-- When all forwarded votes name the processing proposal (what the message handlers guarantee) and
+    the dispatcher sees a majority, the collected signers are more than 2n/3 *distinct* normal
+    current arbiters. -/
+theorem C25_dispatcher_majority (arbs : List Arb) (votes : List Vote)
+    (hh : ∀ v ∈ votes, v.hashOk = true)
+    (hm : hasMajority arbs.length (dispFinal arbs [] votes).length = true) :
+    ((dispFinal arbs [] votes).map (·.1)).Nodup ∧
+    2 * arbs.length / 3 < ((dispFinal arbs [] votes).map (·.1)).length ∧
+    ∀ s ∈ (dispFinal arbs [] votes).map (·.1), ∃ a ∈ arbs, a.normal = true ∧ a.key = s := by
+  obtain ⟨hn, hv⟩ := C25_dispatcher_collects_valid arbs votes
+  have hsnd : ∀ k ∈ dispFinal arbs [] votes, k.2 = true := by
+    intro k hk
+    obtain ⟨_, v, hvm, _, h2, _, _⟩ := hv k hk
+    rw [← h2]; exact hh v hvm
+  refine ⟨?_, ?_, ?_⟩
+  · exact nodup_map_fst _ hn hsnd
+  · rw [List.length_map]
+    have := (C25_has_majority_iff arbs.length (dispFinal arbs [] votes).length).1 hm
+    omega
+  · intro s hs
+    obtain ⟨k, hk, rfl⟩ := List.mem_map.1 hs
+    exact isNormalArb_iff.1 (hv k hk).1
+
+example : hasMajority 4 (dispFinal [⟨1, true⟩, ⟨2, true⟩, ⟨3, true⟩, ⟨4, true⟩] []
+    [⟨1, true, true, true⟩, ⟨1, true, true, true⟩, ⟨2, true, true, true⟩, ⟨9, true, true, true⟩,
+     ⟨3, true, true, true⟩]).length = true := by decide
+
 /-! ## the block pool in front of the chain -/
 
 /-- **The block pool only ever holds a confirmation that passed `ConfirmSanityCheck`**, whatever
@@ -163,6 +206,31 @@ theorem C25_pool_then_chain (arbs : List Arb) (cs : List Conf) (j : Nat) (c : Co
   obtain ⟨c', hc', hs⟩ := C25_pool_only_sane_from_empty cs j h
   rw [hc] at hc'; injection hc' with hc'; subst hc'
   simp [accepted, hs, hctx]
+
+/-- **Pool + chain, DPoS era.**  Whatever sequence of `AddDposBlock` (with or without a
+    confirmation) and `AppendConfirm` calls is made for a block, the block is connected to the
+    main chain only if one of the supplied confirmations is acceptable in the sense of
+    `C25_accept_iff` (valid signatures on every vote and on the proposal, more than 2n/3 distinct
+    normal current arbiters, sponsor a normal arbiter). -/
+theorem C25_chain_connect_requires_accepted (arbs : List Arb) (steps : List CStep)
+    (h : (chainFinal true arbs ⟨false, none, false⟩ 0 steps).connected = true) :
+    ∃ x ∈ steps, ∃ c, x.conf? = some c ∧ accepted arbs c = true := by
+  have inv := chainFinal_inv (arbs := arbs) (Q := fun c => ∃ x ∈ steps, x.conf? = some c) steps
+    ⟨false, none, false⟩ 0
+    ⟨fun j c h => by simp at h, fun h => by simp at h⟩
+    (fun x hx c hc => ⟨x, hx, hc⟩)
+  obtain ⟨c, ⟨x, hx, hc⟩, hacc⟩ := inv.2 h
+  exact ⟨x, hx, c, hc, hacc⟩
+
+/-- non-vacuity: block first, a confirmation with too few signers (sane, refused by the chain),
+    then a full quorum: connected by the third step only. -/
+example :
+    let good : Conf := ⟨0, true, [⟨0, true, true, true⟩, ⟨1, true, true, true⟩, ⟨2, true, true, true⟩, ⟨3, true, true, true⟩]⟩
+    let few : Conf := ⟨0, true, [⟨0, true, true, true⟩, ⟨1, true, true, true⟩]⟩
+    let arbs : List Arb := [⟨0, true⟩, ⟨1, true⟩, ⟨2, true⟩, ⟨3, true⟩, ⟨4, true⟩]
+    (chainFinal true arbs ⟨false, none, false⟩ 0 [.blk, .conf few]).connected = false ∧
+    (chainFinal true arbs ⟨false, none, false⟩ 0 [.blk, .conf few, .conf good]).connected = true := by
+  decide
 
 /-- non-vacuity: a forged confirmation after a sane one does not replace it. -/
 example : poolFinal none 0 [⟨1, true, [⟨1, true, true, true⟩]⟩, ⟨1, true, [⟨1, true, true, false⟩]⟩] = some 0 := by
